@@ -25,8 +25,6 @@ import (
 	"errors"
 	"fmt"
 	"math/big"
-	"os"
-	"runtime/pprof"
 	"strings"
 	"sync"
 
@@ -167,12 +165,11 @@ type finding struct {
 
 // result of one issue
 type result struct {
-	rc         vmcommon.ReturnCode
-	msg        string
-	id         string
-	collided   bool // the first candidate identifier already existed
-	findings   []finding
-	firstExist bool
+	rc       vmcommon.ReturnCode
+	msg      string
+	id       string
+	collided bool // the first candidate identifier already existed
+	findings []finding
 }
 
 // issue runs one issue transaction with the real contract, commits it iff Ok and judges it.
@@ -287,11 +284,6 @@ func (in *inst) doOp(c *mc.Ctx, o op) (*result, *undo) {
 
 func main() {
 	mc.Main("C41", "exploration", func(c *mc.Ctx) {
-		if pf := os.Getenv("VERIF_PROF"); pf != "" {
-			f, _ := os.Create(pf)
-			pprof.StartCPUProfile(f)
-			defer pprof.StopCPUProfile()
-		}
 		// pass (a): histories of <=3 issues over the full alphabet (2 callers);
 		// pass (b), thorough: histories of <=4 issues by one caller (with the stub hasher the
 		// caller only ends up in the owner field, it does not influence the identifier).
